@@ -87,6 +87,19 @@ CHECKS = {
              'derivative is the normal density; scipy.stats mapped to phi/Phi by the translator; multi-event loop and dict plumbing are '
              'covered by the oracle (balance identity evaluated on the implementation with an independent truncated-Gaussian q).',
         design='6 C05'),
+    'C03': dict(
+        technique='Coq proof over R with Coquelicot (field/nra, derivative of an explicit antiderivative, FTC on finite windows, limit of the tail) about ratio_pdf and the amplitude-ratio likelihood translated from source on every run',
+        text='Theorems in coq/Props/C03.v about the translated ratio_pdf/ar_p: its coefficients are those of the completed square of the '
+             'joint Gaussian exponent; by Cauchy-Schwarz the large exponential always has a non-positive argument; an explicit '
+             'antiderivative gives the integral of |y| N(zy) N(y) over every window [-Y, Y] in closed form (FTC), the closed form of the '
+             'code equals that window plus an explicit tail, and the tail tends to 0: the closed form IS the limit of the windows of the '
+             'defining integral (improper integral); it is non-negative for a non-decreasing Phi; the likelihood uses both signs of the '
+             'ratio, absolute amplitudes and errors = fraction x |amplitude|, hence depends on the amplitudes only through magnitudes.',
+        note=AX_R + 'Classical_Prop.classic (Coquelicot); Phi is a parameter: derivative = normal density, Phi(-t) = 1 - Phi(t), limits 0/1, monotone; '
+             'normalisation over r (integral = 1) is NOT proved, it is validated numerically (scipy quadrature of the implementation, < 1e-6) '
+             'on every run; NaN-freedom/finiteness down to fractional error 1e-5 judged on the implementation; comparison with 22-digit '
+             'quadrature of the defining integral with a conditioning-aware tolerance.',
+        design='6 C03'),
 }
 
 NA_REASON = 'check not built yet (work in progress; see DESIGN.md section 6)'
